@@ -19,6 +19,8 @@ pub struct Case {
 
 pub fn hcs_pa(a: &[u8], b: &[u8]) -> Result<bool, String> {
     let mut pa = BlockHashPositionArray::new();
+    // (the array held `b` before: a re-initialised object must behave like a fresh one)
+    must("BlockHashPositionArray::init_from", || pa.init_from(b))?;
     must("BlockHashPositionArray::init_from", || pa.init_from(a))?;
     must("has_common_substring", || pa.has_common_substring(b))
 }
@@ -33,14 +35,18 @@ pub fn check_pair(a: &[u8], b: &[u8], st: &mut Stats, deep: bool) -> Result<(), 
         // through a comparison target and the candidate test (block hash 1 only: bh2 empty)
         let ha = must("new_from_internals_near_raw", || LongFuzzyHash::new_from_internals_near_raw(5, a, &[]))?;
         let hb = must("new_from_internals_near_raw", || LongFuzzyHash::new_from_internals_near_raw(5, b, &[]))?;
-        let t = must("FuzzyHashCompareTarget::from", || FuzzyHashCompareTarget::from(&ha))?;
+        // a target that held "empty block hash 1, b as block hash 2" before
+        let hprev = must("new_from_internals_near_raw", || LongFuzzyHash::new_from_internals_near_raw(5, &[], b))?;
+        let mut t = must("FuzzyHashCompareTarget::from", || FuzzyHashCompareTarget::from(&hprev))?;
+        must("init_from", || t.init_from(&ha))?;
         let g1 = must("block_hash_1().has_common_substring", || t.block_hash_1().has_common_substring(b))?;
         ensure_eq!(g1, exp, "target.block_hash_1().has_common_substring(a={:?}, b={:?})", a, b);
         let c = must("is_comparison_candidate", || t.is_comparison_candidate(&hb))?;
         ensure_eq!(c, exp, "is_comparison_candidate (equal block sizes, bh2 empty) (a={:?}, b={:?})", a, b);
         // crossed: a as block hash 2 of the smaller block size
         let ha2 = must("new_from_internals_near_raw", || LongFuzzyHash::new_from_internals_near_raw(4, &[], a))?;
-        let t2 = must("FuzzyHashCompareTarget::from", || FuzzyHashCompareTarget::from(&ha2))?;
+        let mut t2 = must("FuzzyHashCompareTarget::from", || FuzzyHashCompareTarget::from(&hprev))?;
+        must("init_from", || t2.init_from(&ha2))?;
         let c2 = must("is_comparison_candidate", || t2.is_comparison_candidate(&hb))?;
         ensure_eq!(c2, exp, "is_comparison_candidate (a.bh2 vs b.bh1, near-lt) (a={:?}, b={:?})", a, b);
         let c3 = must("is_comparison_candidate", || FuzzyHashCompareTarget::from(&hb).is_comparison_candidate(&ha2))?;
